@@ -26,11 +26,16 @@ Definition p_send (payload now : Z) (b : bus) : bus :=
 Inductive seekres := SeekOk | SeekIndexError | SeekInvalid.
 Definition low_bound (b : bus) (s : Z) : Z :=
   match b_rows b with [] => s + 1 | r :: _ => r_id r end.
+(** accepted between the oldest retained event and the next one to be written, provided the
+    event is still there (a purge under timestamps that are not in offset order can remove an
+    event from between younger ones) or the offset is the next one to be written *)
+Definition has_id (b : bus) (o : Z) : bool := existsb (fun r => r_id r =? o) (b_rows b).
 Definition c_seek (b : bus) (o : Z) : seekres :=
   if negb (b_exists b) then SeekIndexError
   else match b_seq b with
        | None => SeekInvalid
-       | Some s => if (low_bound b s <=? o) && (o <=? s + 1) then SeekOk else SeekIndexError
+       | Some s => if (low_bound b s <=? o) && (o <=? s + 1) && (has_id b o || (o =? s + 1))
+                   then SeekOk else SeekIndexError
        end.
 (** cursor after seekToBeginning: None when the bus holds no event *)
 Definition c_seek_begin (b : bus) : option Z :=
